@@ -665,7 +665,10 @@ func upBodyInner(u upCase, oracle string) vsched.Body {
 					all = append(all, string(p.Data))
 				}
 			}
-			if strings.Join(all, ",") != strings.Join(sentApp, ",") {
+			// (a switch obtained by an upgrade packet without a preceding probe is outside the protocol - the client
+			// neither probed nor let its poll return first - and is not asserted either way, section 6 C08: neither is
+			// what becomes of a batch that was in flight on the old transport at that moment)
+			if exp != "either" && strings.Join(all, ",") != strings.Join(sentApp, ",") {
 				x.Fail("outbound-across-upgrade%s: application sent %v, the client received %v (polling part %s) (%s)", fp, sentApp, all, fmtPkts(gotPoll), id)
 			}
 		} else {
